@@ -950,40 +950,6 @@ class FunctionPlugin(PrimitivePlugin):
                     )
                 static_params[pname] = original_val
 
-        handled_names: set[str] = {entry["name"] for entry in dynamic_entries}
-        handled_names.update(static_params.keys())
-        literal_map = getattr(ctx, "_call_input_param_literals", None)
-        if isinstance(literal_map, dict):
-            for pname in call_param_names:
-                if pname in handled_names:
-                    continue
-                if pname not in literal_map:
-                    continue
-                accepts_param = False
-                target_fn = callee
-                if target_fn is not None:
-                    try:
-                        sig = inspect.signature(target_fn)
-                        accepts_param = pname in sig.parameters
-                    except Exception:
-                        accepts_param = False
-                if not accepts_param:
-                    continue
-                literal = literal_map[pname]
-                arr = np.asarray(literal)
-                shape = tuple(arr.shape)
-                dtype_np = arr.dtype
-                dynamic_entries.append(
-                    {
-                        "name": pname,
-                        "var": None,
-                        "sds": jax.ShapeDtypeStruct(shape, dtype_np),
-                        "force_external": True,
-                    }
-                )
-                capture_items.append((pname, ("call_input", shape, str(dtype_np))))
-                handled_names.add(pname)
-
         for entry in dynamic_entries:
             if entry.get("force_external"):
                 entry["ir_value"] = ctx.ensure_external_flag(
